@@ -17,7 +17,7 @@ Definition recsum_eqb (a b : recsum) : bool :=
   end.
 Definition dfile_eqb (a b : dfile) : bool :=
   String.eqb (f_name a) (f_name b) && fkind_eqb (f_kind a) (f_kind b) && bytes_eqb (f_body a) (f_body b) &&
-  recsum_eqb (f_sum a) (f_sum b) && String.eqb (f_link a) (f_link b).
+  recsum_eqb (f_sum a) (f_sum b) && String.eqb (f_link a) (f_link b) && Bool.eqb (f_sparse a) (f_sparse b).
 Definition control_eqb (a b : control) : bool :=
   bytes_eqb (c_raw a) (c_raw b) && String.eqb (c_desc a) (c_desc b) && list_eqb String.eqb (c_datahash a) (c_datahash b).
 
@@ -25,7 +25,7 @@ Section Spec.
   Variable sha1 : list N -> list N.
   Variable sha256 : list N -> list N.
   Variable b64 : string -> option (list N).
-  Variable ctl_view : list N -> option (string * list string).
+  Variable ctl_view : list N -> option (string * string).
   Variable gunzip : list N -> option (list N).
   Variable untar : list N -> option (list dfile).
 
@@ -69,6 +69,15 @@ Section Spec.
   Definition covered_b (x : exp) : bool :=
     option_eqb (list_eqb dfile_eqb) (dat_view gunzip untar (d_raw (x_dat x))) (Some (d_files (x_dat x))).
   Definition files_ok_b (x : exp) : bool := forallb file_ok_b (d_files (x_dat x)).
+
+  (* what is found installed was hashed: every installed file's bytes are the body of a
+     REGULAR entry of the data section that agrees with its recorded checksum *)
+  Definition Installed_hashed (x : exp) (out : list (string * list N)) : Prop :=
+    forall n b, In (n, b) out ->
+      exists f, In f (d_files (x_dat x)) /\ f_kind f = FReg /\ f_body f = b /\ file_ok f.
+  Definition installed_hashed_b (x : exp) (out : list (string * list N)) : bool :=
+    forallb (fun p => existsb (fun f => fkind_eqb (f_kind f) FReg && bytes_eqb (f_body f) (snd p) && file_ok_b f)
+                        (d_files (x_dat x))) out.
 
   (* [sfx] names the mechanism when the harness's bookkeeping knows one *)
   Definition chain_tags (sfx : string) (h : handle) (x : exp) : list string :=
